@@ -298,9 +298,9 @@ def conditions(tier):
         for which in ('find', 'rfind'):
             for (n, m) in ([(6, 1), (6, 2), (5, 0)] if q else [(6, 1), (6, 2), (8, 3), (5, 0), (10, 2), (12, 3)]):
                 add(f'C07.{which}[{c},n={n},m={m}]', h_find(c, n, m, 'off', which), f'all contents ({n}-bit data, {m}-bit pattern) x ' + W.format(n + 1), D_FIND, n=n, m=m)
-            for (n, m) in ([(9, 1), (16, 8)] if q else [(10, 1), (17, 1), (17, 2), (16, 8), (24, 8), (24, 16), (25, 8)]):
+            for (n, m) in ([(9, 1), (16, 8), (25, 16)] if q else [(10, 1), (17, 1), (17, 2), (16, 8), (24, 8), (24, 16), (25, 8), (33, 16)]):
                 for part in PARTS:
-                    if q and (n, m) == (16, 8) and (part != 'pos' or which == 'rfind'):
+                    if q and (n, m) in ((16, 8), (25, 16)) and (part != 'pos' or which == 'rfind'):
                         continue
                     add(f'C07.{which}-aligned[{c},n={n},m={m},start={part}]', h_find(c, n, m, 'explicit' if q else 'on', which, part),
                         f'all contents ({n}-bit data, {m}-bit pattern) x start {part}, end in [-{n + 1},{n + 1}] or None x every way of requesting byte alignment', D_FIND, n=n, m=m)
